@@ -31,6 +31,7 @@ struct OpWindow {
   uint64_t refused_injected = 0; uint64_t first_refused = ~0ull;   // injected refusals; request index of the first refusal
   uint64_t requests = 0, refused = 0, mallocs = 0, reallocs = 0, frees = 0, null_frees = 0, realloc_req = 0;
   uint64_t prob_state = 0;
+  double min_growth = 1e9;   // smallest new/old size ratio among granted growing reallocs of blocks of >= 64 bytes in this window
   std::vector<uint64_t> allocated, freed;  // block ids born / released in this window (a realloc that moves = free + alloc of a new id)
   std::vector<std::pair<uint64_t, uint64_t>> moved;   // (old id, new id) for reallocs
   bool open = false;
